@@ -5,4 +5,1293 @@ import SigModel.Spec.Transient
 
 namespace SigModel.Transient
 
+/-! ### association lists -/
+
+@[simp] theorem kvGet_nil {α : Type} (k : Key) : kvGet ([] : List (Key × α)) k = none := rfl
+
+theorem kvGet_cons {α : Type} (k' : Key) (v : α) (r : List (Key × α)) (k : Key) :
+    kvGet ((k', v) :: r) k = if k' = k then some v else kvGet r k := rfl
+
+theorem kvGet_filter_key {α : Type} (g : Key → Bool) (m : List (Key × α)) (k : Key) :
+    kvGet (m.filter (fun p => g p.1)) k = if g k then kvGet m k else none := by
+  induction m with
+  | nil => simp
+  | cons p r ih =>
+    obtain ⟨k', v⟩ := p
+    by_cases hg : g k' = true
+    · rw [List.filter_cons_of_pos (by simpa using hg), kvGet_cons, kvGet_cons, ih]
+      by_cases hk : k' = k
+      · subst hk; simp [hg]
+      · simp [hk]
+    · rw [List.filter_cons_of_neg (by simpa using hg), ih, kvGet_cons]
+      by_cases hk : k' = k
+      · subst hk; simp [hg]
+      · simp [hk]
+
+theorem kvGet_kvErase {α : Type} (m : List (Key × α)) (k k' : Key) :
+    kvGet (kvErase m k) k' = if k' = k then none else kvGet m k' := by
+  have := kvGet_filter_key (fun x => decide (x ≠ k)) m k'
+  simp only [kvErase]
+  rw [this]
+  by_cases h : k' = k <;> simp [h]
+
+theorem kvGet_kvSet {α : Type} (m : List (Key × α)) (k : Key) (v : α) (k' : Key) :
+    kvGet (kvSet m k v) k' = if k' = k then some v else kvGet m k' := by
+  simp only [kvSet, kvGet_cons, kvGet_kvErase]
+  by_cases h : k' = k
+  · subst h; simp
+  · have : ¬ k = k' := fun e => h e.symm
+    simp [h, this]
+
+theorem kvErase_kvErase {α : Type} (m : List (Key × α)) (k : Key) :
+    kvErase (kvErase m k) k = kvErase m k := by
+  simp [kvErase, List.filter_filter]
+
+theorem kvErase_kvSet {α : Type} (m : List (Key × α)) (k : Key) (v : α) :
+    kvErase (kvSet m k v) k = kvErase m k := by
+  simp [kvSet, kvErase, List.filter_filter]
+
+theorem kvSet_kvSet {α : Type} (m : List (Key × α)) (k : Key) (v w : α) :
+    kvSet (kvSet m k v) k w = kvSet m k w := by
+  simp only [kvSet]
+  congr 1
+  simp [kvErase, List.filter_filter]
+
+theorem not_mem_of_kvGet_none {α : Type} (m : List (Key × α)) (k : Key) (h : kvGet m k = none) :
+    ∀ p ∈ m, p.1 ≠ k := by
+  induction m with
+  | nil => intro p hp; cases hp
+  | cons q r ih =>
+    obtain ⟨k', v⟩ := q
+    rw [kvGet_cons] at h
+    by_cases hk : k' = k
+    · simp [hk] at h
+    · simp only [hk, ite_false] at h
+      intro p hp
+      cases hp with
+      | head => exact hk
+      | tail _ hp => exact ih h p hp
+
+theorem kvErase_eq_self_of_none {α : Type} (m : List (Key × α)) (k : Key) (h : kvGet m k = none) :
+    kvErase m k = m := by
+  simp only [kvErase]
+  rw [List.filter_eq_self]
+  intro p hp
+  simpa using not_mem_of_kvGet_none m k h p hp
+
+/-! ### replicas -/
+
+theorem applyMsg_idem (r : Replica) (m : Msg) : applyMsg (applyMsg r m) m = applyMsg r m := by
+  cases m with
+  | initial d => rfl
+  | set k v old => simp [applyMsg, kvSet_kvSet]
+  | remove k old => simp [applyMsg, kvErase_kvErase]
+
+theorem applyMsgs_append (r : Replica) (a b : List Msg) :
+    applyMsgs r (a ++ b) = applyMsgs (applyMsgs r a) b := by
+  simp [applyMsgs, List.foldl_append]
+
+theorem applyMsgs_replicate_succ (r : Replica) (m : Msg) (n : Nat) :
+    applyMsgs r (List.replicate (n + 1) m) = applyMsg r m := by
+  induction n generalizing r with
+  | zero => rfl
+  | succ n ih =>
+    have : List.replicate (n + 1 + 1) m = m :: List.replicate (n + 1) m := rfl
+    rw [this]
+    show applyMsgs (applyMsg r m) (List.replicate (n + 1) m) = applyMsg r m
+    rw [ih, applyMsg_idem]
+
+theorem msgsFor_append (l : Lid) (a b : Out) : msgsFor l (a ++ b) = msgsFor l a ++ msgsFor l b := by
+  simp [msgsFor, List.filter_append]
+
+@[simp] theorem msgsFor_nil (l : Lid) : msgsFor l [] = [] := rfl
+
+theorem msgsFor_notify (st : State) (m : Msg) (l : Lid) :
+    msgsFor l (notify st m) = List.replicate (st.listeners.count l) m := by
+  simp only [notify, msgsFor]
+  induction st.listeners with
+  | nil => rfl
+  | cons a r ih =>
+    by_cases h : a = l
+    · subst h
+      simp [ih, List.replicate_succ]
+    · have h' : (a == l) = false := by simpa using h
+      simp only [List.map_cons, List.filter_cons, h', List.count_cons]
+      simpa using ih
+
+/-- The messages of a step turn the old data into the new data for every registered listener. -/
+def Delta (st : State) (out : Out) (st' : State) : Prop :=
+  st'.listeners = st.listeners ∧
+  ∀ l ∈ st.listeners, applyMsgs st.data (msgsFor l out) = st'.data
+
+theorem Delta.refl' (st st' : State) (hl : st'.listeners = st.listeners) (hd : st'.data = st.data) :
+    Delta st [] st' := ⟨hl, fun _ _ => by simp [applyMsgs, hd]⟩
+
+theorem Delta.trans {a b c : State} {o1 o2 : Out} (h1 : Delta a o1 b) (h2 : Delta b o2 c) :
+    Delta a (o1 ++ o2) c := by
+  refine ⟨h2.1.trans h1.1, fun l hl => ?_⟩
+  rw [msgsFor_append, applyMsgs_append, h1.2 l hl]
+  exact h2.2 l (h1.1 ▸ hl)
+
+theorem Delta_notify (st st' : State) (m : Msg) (hl : st'.listeners = st.listeners)
+    (hd : st'.data = applyMsg st.data m) : Delta st (notify st m) st' := by
+  refine ⟨hl, fun l hmem => ?_⟩
+  rw [msgsFor_notify]
+  have hpos : 0 < st.listeners.count l := List.count_pos_iff.mpr hmem
+  obtain ⟨n, hn⟩ : ∃ n, st.listeners.count l = n + 1 := ⟨_, (Nat.succ_pred_eq_of_pos hpos).symm⟩
+  rw [hn, applyMsgs_replicate_succ, hd]
+
+/-! #### the timer helpers do not touch data or listeners -/
+
+@[simp] theorem stopTimer_data (st : State) (k : Key) : (stopTimer st k).data = st.data := by
+  unfold stopTimer; split <;> rfl
+@[simp] theorem stopTimer_listeners (st : State) (k : Key) : (stopTimer st k).listeners = st.listeners := by
+  unfold stopTimer; split <;> rfl
+@[simp] theorem stopTimer_now (st : State) (k : Key) : (stopTimer st k).now = st.now := by
+  unfold stopTimer; split <;> rfl
+@[simp] theorem stopTimer_nextId (st : State) (k : Key) : (stopTimer st k).nextId = st.nextId := by
+  unfold stopTimer; split <;> rfl
+@[simp] theorem arm_data (st : State) (k : Key) (v : Val) (ttl : Int) : (arm st k v ttl).data = st.data := rfl
+@[simp] theorem arm_listeners (st : State) (k : Key) (v : Val) (ttl : Int) :
+    (arm st k v ttl).listeners = st.listeners := rfl
+
+@[simp] theorem removeAfterTTL_data (c : Cfg) (st : State) (k : Key) (v : Val) (ttl : Int) :
+    (removeAfterTTL c st k v ttl).data = st.data := by
+  unfold removeAfterTTL; split <;> (try split) <;> simp
+@[simp] theorem removeAfterTTL_listeners (c : Cfg) (st : State) (k : Key) (v : Val) (ttl : Int) :
+    (removeAfterTTL c st k v ttl).listeners = st.listeners := by
+  unfold removeAfterTTL; split <;> (try split) <;> simp
+@[simp] theorem updateTTL_data (c : Cfg) (st : State) (k : Key) (v : Val) (ttl : Int) :
+    (updateTTL c st k v ttl).data = st.data := by
+  unfold updateTTL; split <;> (try split) <;> simp [dropEntry]
+@[simp] theorem updateTTL_listeners (c : Cfg) (st : State) (k : Key) (v : Val) (ttl : Int) :
+    (updateTTL c st k v ttl).listeners = st.listeners := by
+  unfold updateTTL; split <;> (try split) <;> simp [dropEntry]
+
+theorem Delta_doSet (c : Cfg) (st : State) (k : Key) (v : Val) (prev : Option Val) (ttl : Int) :
+    Delta st (doSet c st k v prev ttl).2 (doSet c st k v prev ttl).1 := by
+  apply Delta_notify <;> simp [doSet, applyMsg]
+
+theorem Delta_doRemove (st : State) (k : Key) (prev : Val) :
+    Delta st (doRemove st k prev).2 (doRemove st k prev).1 := by
+  apply Delta_notify <;> simp [doRemove, applyMsg]
+
+theorem Delta_remove (st : State) (k : Key) : Delta st (remove st k).out (remove st k).st := by
+  unfold remove
+  split
+  · exact Delta.refl' _ _ rfl rfl
+  · exact Delta_doRemove st k _
+
+theorem Delta_compareAndRemove (st : State) (k : Key) (old : Option Val) :
+    Delta st (compareAndRemove st k old).out (compareAndRemove st k old).st := by
+  unfold compareAndRemove
+  split
+  · exact Delta.refl' _ _ rfl rfl
+  · split
+    · exact Delta_doRemove st k _
+    · exact Delta.refl' _ _ rfl rfl
+
+theorem Delta_setTTL (c : Cfg) (st : State) (k : Key) (v : Option Val) (ttl : Int) :
+    Delta st (setTTL c st k v ttl).out (setTTL c st k v ttl).st := by
+  unfold setTTL
+  split
+  · exact Delta_remove st k
+  · simp only
+    split
+    · exact Delta.refl' _ _ (by simp) (by simp)
+    · exact Delta_doSet c st k _ _ ttl
+
+theorem Delta_casTTL (c : Cfg) (st : State) (k : Key) (old v : Option Val) (ttl : Int) :
+    Delta st (casTTL c st k old v ttl).out (casTTL c st k old v ttl).st := by
+  unfold casTTL
+  split
+  · exact Delta_compareAndRemove st k old
+  · simp only
+    split
+    · exact Delta.refl' _ _ rfl rfl
+    · split
+      · exact Delta.refl' _ _ (by simp) (by simp)
+      · exact Delta_doSet c st k _ _ ttl
+
+theorem Delta_runCb (c : Cfg) (st : State) (id : Nat) : Delta st (runCb c st id).out (runCb c st id).st := by
+  unfold runCb
+  split
+  · exact Delta.refl' _ _ rfl rfl
+  · simp only
+    split
+    · exact Delta.refl' _ _ rfl rfl
+    · rename_i t _ _
+      have := Delta_compareAndRemove
+        { st with timers := st.timers.filter (fun t => !(t.id == id && t.fired)) } t.key (some t.val)
+      exact this
+
+theorem Delta_runCbs (c : Cfg) (st : State) (ids : List Nat) :
+    Delta st (runCbs c st ids).2 (runCbs c st ids).1 := by
+  induction ids generalizing st with
+  | nil => exact Delta.refl' _ _ rfl rfl
+  | cons id ids ih =>
+    simp only [runCbs]
+    exact Delta.trans (Delta_runCb c st id) (ih _)
+
+theorem Delta_fire (st : State) (dt : Nat) : Delta st [] (fire st dt) := Delta.refl' _ _ rfl rfl
+
+theorem Delta_advance (c : Cfg) (st : State) (dt : Nat) :
+    Delta st (advance c st dt).2 (advance c st dt).1 := by
+  simp only [advance]
+  have h1 := Delta_runCbs c st (pendingIds st)
+  have h2 := Delta_fire (runCbs c st (pendingIds st)).1 dt
+  have h3 := Delta_runCbs c (fire (runCbs c st (pendingIds st)).1 dt)
+    (pendingIds (fire (runCbs c st (pendingIds st)).1 dt))
+  have := Delta.trans (Delta.trans h1 h2) h3
+  simpa using this
+
+/-! ### replica convergence -/
+
+/-- Every registered listener's replica is the store. -/
+def Conv (st : State) (view : Lid → Replica) : Prop := ∀ l ∈ st.listeners, view l = st.data
+
+/-- The run of the model together with what every listener knows. -/
+def runV (c : Cfg) : State → (Lid → Replica) → List Op → State × (Lid → Replica)
+  | st, view, [] => (st, view)
+  | st, view, op :: ops =>
+    let r := stepC c st op
+    runV c r.st (viewStep view op r.out) ops
+
+theorem Conv_of_Delta {st st' : State} {out : Out} {view : Lid → Replica} {op : Op}
+    (hop : ∀ l, op ≠ .addListener l) (hc : Conv st view) (hd : Delta st out st') :
+    Conv st' (viewStep view op out) := by
+  intro l hl
+  rw [hd.1] at hl
+  have hb : viewStep view op out l = applyMsgs (view l) (msgsFor l out) := by
+    cases op <;> first | rfl | (exact absurd rfl (hop _))
+  rw [hb, hc l hl]
+  exact hd.2 l hl
+
+theorem Conv_step (c : Cfg) (st : State) (view : Lid → Replica) (op : Op) (hc : Conv st view) :
+    Conv (stepC c st op).st (viewStep view op (stepC c st op).out) := by
+  cases op with
+  | set k v ttl => exact Conv_of_Delta (by intro l h; cases h) hc (Delta_setTTL c st k v ttl)
+  | cas k old v ttl => exact Conv_of_Delta (by intro l h; cases h) hc (Delta_casTTL c st k old v ttl)
+  | remove k => exact Conv_of_Delta (by intro l h; cases h) hc (Delta_remove st k)
+  | casRemove k old => exact Conv_of_Delta (by intro l h; cases h) hc (Delta_compareAndRemove st k old)
+  | get => exact Conv_of_Delta (by intro l h; cases h) hc (Delta.refl' _ _ rfl rfl)
+  | advance dt => exact Conv_of_Delta (by intro l h; cases h) hc (Delta_advance c st dt)
+  | fire dt => exact Conv_of_Delta (by intro l h; cases h) hc (Delta_fire st dt)
+  | runCb id => exact Conv_of_Delta (by intro l h; cases h) hc (Delta_runCb c st id)
+  | removeListener l0 =>
+    intro l hl
+    have hl' : l ∈ st.listeners := by
+      simp only [stepC, removeListener, List.mem_filter] at hl
+      exact hl.1
+    show applyMsgs (view l) (msgsFor l []) = st.data
+    simpa [applyMsgs] using hc l hl'
+  | addListener l0 =>
+    intro l hl
+    simp only [stepC, addListener] at hl ⊢
+    by_cases hEq : l0 = l
+    · subst hEq
+      simp only [viewStep, ite_true]
+      by_cases hd : (c.initialIfNonEmpty && decide (st.data = [])) = true
+      · have hd' : st.data = [] := by
+          simp only [Bool.and_eq_true, decide_eq_true_eq] at hd; exact hd.2
+        rw [if_pos hd]
+        simp [applyMsgs, hd']
+      · rw [if_neg hd]
+        simp [msgsFor, applyMsgs, applyMsg]
+    · have hl' : l ∈ st.listeners := by
+        by_cases hm : l0 ∈ st.listeners
+        · simpa [hm] using hl
+        · simp only [hm, ite_false, List.mem_cons] at hl
+          rcases hl with h | h
+          · exact absurd h.symm hEq
+          · exact h
+      have hne : (l0 == l) = false := by simpa using hEq
+      simp only [viewStep, hEq, ite_false]
+      have : msgsFor l (if (c.initialIfNonEmpty && decide (st.data = [])) = true then []
+          else [(l0, Msg.initial st.data)]) = [] := by
+        split <;> simp [msgsFor, hne]
+      rw [this]
+      simpa [applyMsgs] using hc l hl'
+
+theorem Conv_runV (c : Cfg) (ops : List Op) (st : State) (view : Lid → Replica) (hc : Conv st view) :
+    Conv (runV c st view ops).1 (runV c st view ops).2 := by
+  induction ops generalizing st view with
+  | nil => exact hc
+  | cons op ops ih => exact ih _ _ (Conv_step c st view op hc)
+
+
+/-! ### the repaired code, simplified -/
+
+@[simp] theorem repaired_noTTL (ttl : Int) : Cfg.repaired.noTTL ttl = decide (ttl ≤ 0) := by
+  simp [Cfg.noTTL, Cfg.repaired]
+
+/-- What both `updateTTL` and `removeAfterTTL` do in the repaired code: the previous timer is
+stopped and forgotten, a new one is armed iff a ttl was requested. -/
+def retime (st : State) (k : Key) (v : Val) (ttl : Int) : State :=
+  if ttl ≤ 0 then stopTimer st k else arm (stopTimer st k) k v ttl
+
+theorem removeAfterTTL_repaired (st : State) (k : Key) (v : Val) (ttl : Int) :
+    removeAfterTTL Cfg.repaired st k v ttl = retime st k v ttl := by
+  unfold removeAfterTTL retime
+  rw [repaired_noTTL]
+  have hs : Cfg.repaired.setStopsFirst = true := rfl
+  by_cases h : ttl ≤ 0 <;> simp [h, hs]
+
+theorem updateTTL_repaired (st : State) (k : Key) (v : Val) (ttl : Int) :
+    updateTTL Cfg.repaired st k v ttl = retime st k v ttl := by
+  unfold updateTTL
+  rw [repaired_noTTL, removeAfterTTL_repaired]
+  have hs : Cfg.repaired.updateStops = true := rfl
+  by_cases h : ttl ≤ 0 <;> simp [h, hs, retime]
+
+theorem stopTimer_setData (st : State) (d : List (Key × Val)) (k : Key) :
+    stopTimer { st with data := d } k = { stopTimer st k with data := d } := by
+  unfold stopTimer
+  cases kvGet st.tmap k <;> rfl
+
+/-! ### the relation between the model's timers and the spec's deadlines -/
+
+/-- The spec's entries as a function. -/
+abbrev SF := Key → Option Entry
+
+def upd (f : SF) (k : Key) (e : Option Entry) : SF := fun k' => if k' = k then e else f k'
+
+theorem upd_upd (f : SF) (k : Key) (e e' : Option Entry) : upd (upd f k e) k e' = upd f k e' := by
+  funext k'; simp only [upd]; split <;> rfl
+
+theorem upd_self (f : SF) (k : Key) : upd f k (f k) = f := by
+  funext k'; simp only [upd]; split
+  · rename_i h; rw [h]
+  · rfl
+
+def clearDeadline (e : Option Entry) : Option Entry := e.map (fun e => { e with deadline := none })
+
+structure Rel (st : State) (f : SF) : Prop where
+  val_eq : ∀ k, (f k).map (·.val) = kvGet st.data k
+  ids_lt : ∀ t ∈ st.timers, t.id < st.nextId
+  uniq : ∀ t1 ∈ st.timers, ∀ t2 ∈ st.timers, t1.id = t2.id → t1 = t2
+  cur : ∀ k id, kvGet st.tmap k = some id →
+    ∃ t ∈ st.timers, t.id = id ∧ t.key = k ∧ f k = some ⟨t.val, some t.due⟩
+  nocur : ∀ k, kvGet st.tmap k = none → ∀ e, f k = some e → e.deadline = none
+  armed_cur : ∀ t ∈ st.timers, t.fired = false → kvGet st.tmap t.key = some t.id ∧ st.now < t.due
+  fired_due : ∀ t ∈ st.timers, t.fired = true → t.due ≤ st.now
+
+theorem Rel_init : Rel init (fun _ => none) := by
+  constructor <;> simp [init]
+
+theorem stopTimer_tmap_none (st : State) (k : Key) : kvGet (stopTimer st k).tmap k = none := by
+  unfold stopTimer
+  cases h : kvGet st.tmap k with
+  | none => simpa using h
+  | some id => simp [kvGet_kvErase]
+
+theorem mem_stopTimer_timers (st : State) (k : Key) (t : Timer) (h : t ∈ (stopTimer st k).timers) :
+    t ∈ st.timers := by
+  unfold stopTimer at h
+  cases hk : kvGet st.tmap k with
+  | none => simpa [hk] using h
+  | some id =>
+    simp only [hk, List.mem_filter] at h
+    exact h.1
+
+theorem Rel_stop {st : State} {f : SF} (h : Rel st f) (k : Key) :
+    Rel (stopTimer st k) (upd f k (clearDeadline (f k))) := by
+  cases hk : kvGet st.tmap k with
+  | none =>
+    have hst : stopTimer st k = st := by unfold stopTimer; simp [hk]
+    have hf : clearDeadline (f k) = f k := by
+      cases hfk : f k with
+      | none => rfl
+      | some e =>
+        have := h.nocur k hk e hfk
+        cases e with
+        | mk v d => simp only at this; subst this; rfl
+    rw [hst, hf, upd_self]; exact h
+  | some id =>
+    obtain ⟨t0, ht0, hid0, hkey0, _⟩ := h.cur k id hk
+    have hst : stopTimer st k =
+        { st with timers := st.timers.filter (fun t => !(t.id == id && !t.fired))
+                  tmap := kvErase st.tmap k } := by unfold stopTimer; simp [hk]
+    rw [hst]
+    constructor
+    · intro k'
+      simp only [upd]
+      by_cases hkk : k' = k
+      · subst hkk
+        simp only [ite_true, clearDeadline, Option.map_map]
+        rw [← h.val_eq k']; cases f k' <;> rfl
+      · simp only [hkk, ite_false]; exact h.val_eq k'
+    · intro t ht
+      simp only [List.mem_filter] at ht
+      exact h.ids_lt t ht.1
+    · intro t1 h1 t2 h2
+      simp only [List.mem_filter] at h1 h2
+      exact h.uniq t1 h1.1 t2 h2.1
+    · intro k' id' hk'
+      simp only [kvGet_kvErase] at hk'
+      by_cases hkk : k' = k
+      · simp [hkk] at hk'
+      · simp only [hkk, ite_false] at hk'
+        obtain ⟨t, ht, hid, hkey, hf⟩ := h.cur k' id' hk'
+        refine ⟨t, ?_, hid, hkey, by simp only [upd, hkk, ite_false]; exact hf⟩
+        simp only [List.mem_filter, ht, true_and]
+        by_cases hi : t.id = id
+        · have : t = t0 := h.uniq t ht t0 ht0 (hi.trans hid0.symm)
+          subst this
+          exact absurd (hkey.symm.trans hkey0) hkk
+        · simp [hi]
+    · intro k' hk' e he
+      simp only [kvGet_kvErase] at hk'
+      by_cases hkk : k' = k
+      · subst hkk
+        simp only [upd, ite_true, clearDeadline] at he
+        cases hfk : f k' with
+        | none => simp [hfk] at he
+        | some e0 => simp only [hfk, Option.map_some, Option.some.injEq] at he; subst he; rfl
+      · simp only [hkk, ite_false] at hk'
+        simp only [upd, hkk, ite_false] at he
+        exact h.nocur k' hk' e he
+    · intro t ht hfired
+      simp only [List.mem_filter] at ht
+      obtain ⟨hc, hn⟩ := h.armed_cur t ht.1 hfired
+      refine ⟨?_, hn⟩
+      simp only [kvGet_kvErase]
+      by_cases hkk : t.key = k
+      · exfalso
+        rw [hkk, hk] at hc
+        have hi : t.id = id := by injection hc with hc; exact hc.symm
+        have := ht.2
+        simp [hi, hfired] at this
+      · simp only [hkk, ite_false]; exact hc
+    · intro t ht hfired
+      simp only [List.mem_filter] at ht
+      exact h.fired_due t ht.1 hfired
+
+theorem Rel_setData {st : State} {f : SF} (h : Rel st f) (k : Key) (v : Val)
+    (hk : kvGet st.tmap k = none) :
+    Rel { st with data := kvSet st.data k v } (upd f k (some ⟨v, none⟩)) := by
+  constructor
+  · intro k'
+    simp only [upd, kvGet_kvSet]
+    by_cases hkk : k' = k
+    · simp [hkk]
+    · simp only [hkk, ite_false]; exact h.val_eq k'
+  · exact h.ids_lt
+  · exact h.uniq
+  · intro k' id hk'
+    have hkk : k' ≠ k := by intro e; subst e; simp [hk] at hk'
+    obtain ⟨t, ht, hid, hkey, hf⟩ := h.cur k' id hk'
+    exact ⟨t, ht, hid, hkey, by simp only [upd, hkk, ite_false]; exact hf⟩
+  · intro k' hk' e he
+    simp only [upd] at he
+    by_cases hkk : k' = k
+    · simp only [hkk, ite_true, Option.some.injEq] at he; subst he; rfl
+    · simp only [hkk, ite_false] at he; exact h.nocur k' hk' e he
+  · exact h.armed_cur
+  · exact h.fired_due
+
+theorem Rel_eraseData {st : State} {f : SF} (h : Rel st f) (k : Key)
+    (hk : kvGet st.tmap k = none) :
+    Rel { st with data := kvErase st.data k } (upd f k none) := by
+  constructor
+  · intro k'
+    simp only [upd, kvGet_kvErase]
+    by_cases hkk : k' = k
+    · simp [hkk]
+    · simp only [hkk, ite_false]; exact h.val_eq k'
+  · exact h.ids_lt
+  · exact h.uniq
+  · intro k' id hk'
+    have hkk : k' ≠ k := by intro e; subst e; simp [hk] at hk'
+    obtain ⟨t, ht, hid, hkey, hf⟩ := h.cur k' id hk'
+    exact ⟨t, ht, hid, hkey, by simp only [upd, hkk, ite_false]; exact hf⟩
+  · intro k' hk' e he
+    simp only [upd] at he
+    by_cases hkk : k' = k
+    · simp [hkk] at he
+    · simp only [hkk, ite_false] at he; exact h.nocur k' hk' e he
+  · exact h.armed_cur
+  · exact h.fired_due
+
+theorem Rel_arm {st : State} {f : SF} (h : Rel st f) (k : Key) (v : Val) (ttl : Int)
+    (hk : kvGet st.tmap k = none) (hv : kvGet st.data k = some v) (httl : 0 < ttl) :
+    Rel (arm st k v ttl) (upd f k (some ⟨v, some (st.now + ttl.toNat)⟩)) := by
+  constructor
+  · intro k'
+    simp only [upd, arm_data]
+    by_cases hkk : k' = k
+    · simp [hkk, hv]
+    · simp only [hkk, ite_false]; exact h.val_eq k'
+  · intro t ht
+    simp only [arm, List.mem_append, List.mem_singleton] at ht ⊢
+    rcases ht with ht | ht
+    · have := h.ids_lt t ht; omega
+    · subst ht; simp
+  · intro t1 h1 t2 h2 hid
+    simp only [arm, List.mem_append, List.mem_singleton] at h1 h2
+    rcases h1 with h1 | h1 <;> rcases h2 with h2 | h2
+    · exact h.uniq t1 h1 t2 h2 hid
+    · have := h.ids_lt t1 h1; subst h2; simp at hid; omega
+    · have := h.ids_lt t2 h2; subst h1; simp at hid; omega
+    · rw [h1, h2]
+  · intro k' id hk'
+    simp only [arm, kvGet_kvSet] at hk'
+    by_cases hkk : k' = k
+    · subst hkk
+      simp only [ite_true, Option.some.injEq] at hk'
+      refine ⟨{ id := st.nextId, key := k', val := v, due := st.now + ttl.toNat, fired := false },
+        ?_, hk', rfl, ?_⟩
+      · simp [arm]
+      · simp [upd]
+    · simp only [hkk, ite_false] at hk'
+      obtain ⟨t, ht, hid, hkey, hf⟩ := h.cur k' id hk'
+      refine ⟨t, ?_, hid, hkey, by simp only [upd, hkk, ite_false]; exact hf⟩
+      simp only [arm, List.mem_append]; exact Or.inl ht
+  · intro k' hk' e he
+    simp only [arm, kvGet_kvSet] at hk'
+    by_cases hkk : k' = k
+    · simp [hkk] at hk'
+    · simp only [hkk, ite_false] at hk'
+      simp only [upd, hkk, ite_false] at he
+      exact h.nocur k' hk' e he
+  · intro t ht hfired
+    simp only [arm, List.mem_append, List.mem_singleton] at ht
+    rcases ht with ht | ht
+    · obtain ⟨hc, hn⟩ := h.armed_cur t ht hfired
+      have hkk : t.key ≠ k := by intro e; rw [e, hk] at hc; cases hc
+      refine ⟨?_, hn⟩
+      simp only [arm, kvGet_kvSet, hkk, ite_false]; exact hc
+    · subst ht
+      refine ⟨by simp [arm, kvGet_kvSet], ?_⟩
+      simp only [arm]
+      omega
+  · intro t ht hfired
+    simp only [arm, List.mem_append, List.mem_singleton] at ht
+    rcases ht with ht | ht
+    · exact h.fired_due t ht hfired
+    · subst ht; simp at hfired
+
+/-! ### whole operations of the repaired code against the spec -/
+
+theorem entry_of_val {st : State} {f : SF} (h : Rel st f) {k : Key} {v : Val}
+    (hv : kvGet st.data k = some v) : ∃ d, f k = some ⟨v, d⟩ := by
+  have := h.val_eq k
+  rw [hv] at this
+  cases hf : f k with
+  | none => simp [hf] at this
+  | some e =>
+    obtain ⟨v', d⟩ := e
+    simp only [hf, Option.map_some, Option.some.injEq] at this
+    subst this
+    exact ⟨d, rfl⟩
+
+theorem none_of_val {st : State} {f : SF} (h : Rel st f) {k : Key}
+    (hv : kvGet st.data k = none) : f k = none := by
+  have := h.val_eq k
+  rw [hv] at this
+  cases hf : f k with
+  | none => rfl
+  | some e => simp [hf] at this
+
+theorem deadlineOf_nonpos (now : Nat) (ttl : Int) (h : ttl ≤ 0) : deadlineOf now ttl = none := by
+  unfold deadlineOf; split
+  · omega
+  · rfl
+
+theorem deadlineOf_pos (now : Nat) (ttl : Int) (h : ¬ ttl ≤ 0) :
+    deadlineOf now ttl = some (now + ttl.toNat) := by
+  unfold deadlineOf; split
+  · rfl
+  · omega
+
+theorem Rel_retime {st : State} {f : SF} (h : Rel st f) (k : Key) (v : Val) (ttl : Int)
+    (hv : kvGet st.data k = some v) :
+    Rel (retime st k v ttl) (upd f k (some ⟨v, deadlineOf st.now ttl⟩)) := by
+  obtain ⟨d, hf⟩ := entry_of_val h hv
+  have h1 := Rel_stop h k
+  rw [hf] at h1
+  simp only [clearDeadline, Option.map_some] at h1
+  unfold retime
+  by_cases ht : ttl ≤ 0
+  · simp only [ht, ite_true, deadlineOf_nonpos _ _ ht]; exact h1
+  · simp only [ht, ite_false, deadlineOf_pos _ _ ht]
+    have h2 := Rel_arm h1 k v ttl (stopTimer_tmap_none st k) (by simpa using hv) (by omega)
+    rw [upd_upd] at h2
+    simpa using h2
+
+theorem Rel_doSet {st : State} {f : SF} (h : Rel st f) (k : Key) (v : Val) (prev : Option Val)
+    (ttl : Int) :
+    Rel (doSet Cfg.repaired st k v prev ttl).1 (upd f k (some ⟨v, deadlineOf st.now ttl⟩)) := by
+  simp only [doSet, removeAfterTTL_repaired]
+  have h1 := Rel_setData (Rel_stop h k) k v (stopTimer_tmap_none st k)
+  rw [upd_upd] at h1
+  unfold retime
+  rw [stopTimer_setData]
+  simp only [stopTimer_data] at h1
+  by_cases ht : ttl ≤ 0
+  · simp only [ht, ite_true, deadlineOf_nonpos _ _ ht]; exact h1
+  · simp only [ht, ite_false, deadlineOf_pos _ _ ht]
+    have h2 := Rel_arm h1 k v ttl (stopTimer_tmap_none st k) (by simp [kvGet_kvSet]) (by omega)
+    rw [upd_upd] at h2
+    simpa using h2
+
+theorem Rel_doRemove {st : State} {f : SF} (h : Rel st f) (k : Key) (prev : Val) :
+    Rel (doRemove st k prev).1 (upd f k none) := by
+  simp only [doRemove]
+  rw [stopTimer_setData]
+  have h1 := Rel_eraseData (Rel_stop h k) k (stopTimer_tmap_none st k)
+  rw [upd_upd] at h1
+  simpa using h1
+
+/-- Model state and ideal store side by side. -/
+structure RelS (st : State) (sp : Spec) : Prop where
+  now_eq : sp.now = st.now
+  rel : Rel st (kvGet sp.ents)
+
+theorem specF_put (sp : Spec) (k : Key) (v : Val) (ttl : Int) :
+    kvGet (sp.put k v ttl).ents = upd (kvGet sp.ents) k (some ⟨v, deadlineOf sp.now ttl⟩) := by
+  funext k'; simp [Spec.put, kvGet_kvSet, upd]
+
+theorem specF_del (sp : Spec) (k : Key) :
+    kvGet (sp.del k).ents = upd (kvGet sp.ents) k none := by
+  funext k'; simp [Spec.del, kvGet_kvErase, upd]
+
+theorem RelS.value_eq {st : State} {sp : Spec} (h : RelS st sp) (k : Key) :
+    sp.value k = kvGet st.data k := h.rel.val_eq k
+
+theorem RelS_put_retime {st : State} {sp : Spec} (h : RelS st sp) (k : Key) (v : Val) (ttl : Int)
+    (hv : kvGet st.data k = some v) : RelS (retime st k v ttl) (sp.put k v ttl) := by
+  refine ⟨by simp [Spec.put, retime, h.now_eq]; split <;> simp [arm], ?_⟩
+  rw [specF_put, h.now_eq]
+  exact Rel_retime h.rel k v ttl hv
+
+theorem doSet_now (c : Cfg) (st : State) (k : Key) (v : Val) (prev : Option Val) (ttl : Int) :
+    (doSet c st k v prev ttl).1.now = st.now := by
+  simp only [doSet, removeAfterTTL]
+  split <;> (try split) <;> simp [arm]
+
+theorem RelS_put_doSet {st : State} {sp : Spec} (h : RelS st sp) (k : Key) (v : Val)
+    (prev : Option Val) (ttl : Int) :
+    RelS (doSet Cfg.repaired st k v prev ttl).1 (sp.put k v ttl) := by
+  refine ⟨by rw [doSet_now]; exact h.now_eq, ?_⟩
+  rw [specF_put, h.now_eq]
+  exact Rel_doSet h.rel k v prev ttl
+
+theorem RelS_del_doRemove {st : State} {sp : Spec} (h : RelS st sp) (k : Key) (prev : Val) :
+    RelS (doRemove st k prev).1 (sp.del k) := by
+  refine ⟨by simp [doRemove, Spec.del, h.now_eq], ?_⟩
+  rw [specF_del]
+  exact Rel_doRemove h.rel k prev
+
+theorem RelS_del_absent {st : State} {sp : Spec} (h : RelS st sp) (k : Key)
+    (hk : kvGet st.data k = none) : RelS st (sp.del k) := by
+  refine ⟨h.now_eq, ?_⟩
+  rw [specF_del]
+  have := none_of_val h.rel hk
+  rw [← this, upd_self]
+  exact h.rel
+
+theorem RelS_remove {st : State} {sp : Spec} (h : RelS st sp) (k : Key) :
+    RelS (remove st k).st (sp.del k) := by
+  unfold remove
+  cases hk : kvGet st.data k with
+  | none => exact RelS_del_absent h k hk
+  | some prev => exact RelS_del_doRemove h k prev
+
+theorem RelS_compareAndRemove {st : State} {sp : Spec} (h : RelS st sp) (k : Key) (old : Option Val) :
+    RelS (compareAndRemove st k old).st (if old.isSome ∧ old = sp.value k then sp.del k else sp) := by
+  unfold compareAndRemove
+  rw [h.value_eq]
+  cases hk : kvGet st.data k with
+  | none =>
+    have : ¬ (old.isSome = true ∧ old = none) := by
+      intro ⟨h1, h2⟩; subst h2; simp at h1
+    rw [if_neg this]; exact h
+  | some prev =>
+    by_cases ho : old = some prev
+    · subst ho
+      simp only [Option.isSome_some, and_self, ite_true]
+      exact RelS_del_doRemove h k prev
+    · have : ¬ (old.isSome = true ∧ old = some prev) := fun ⟨_, h2⟩ => ho h2
+      rw [if_neg this]
+      simp only [if_neg ho]; exact h
+
+theorem RelS_setTTL {st : State} {sp : Spec} (h : RelS st sp) (k : Key) (v : Option Val) (ttl : Int) :
+    RelS (setTTL Cfg.repaired st k v ttl).st (sp.step (.set k v ttl)) := by
+  cases v with
+  | none => exact RelS_remove h k
+  | some v =>
+    simp only [setTTL, Spec.step]
+    have hs : Cfg.repaired.setUnchangedSilent = true := rfl
+    by_cases hp : kvGet st.data k = some v
+    · simp only [hs, hp, Bool.true_and, decide_true, ite_true, updateTTL_repaired]
+      exact RelS_put_retime h k v ttl hp
+    · simp only [hs, hp, Bool.true_and, decide_false, Bool.false_eq_true, ite_false]
+      exact RelS_put_doSet h k v _ ttl
+
+theorem RelS_casTTL {st : State} {sp : Spec} (h : RelS st sp) (k : Key) (old v : Option Val) (ttl : Int) :
+    RelS (casTTL Cfg.repaired st k old v ttl).st (sp.step (.cas k old v ttl)) := by
+  cases v with
+  | none => exact RelS_compareAndRemove h k old
+  | some v =>
+    simp only [casTTL, Spec.step]
+    rw [h.value_eq]
+    have hs : Cfg.repaired.casUnchangedSilent = true := rfl
+    by_cases ho : old = kvGet st.data k
+    · simp only [ho, ne_eq, not_true_eq_false, ite_false, ite_true, hs, Bool.true_and]
+      by_cases hp : kvGet st.data k = some v
+      · simp only [hp, decide_true, ite_true, updateTTL_repaired]
+        exact RelS_put_retime h k v ttl hp
+      · simp only [hp, decide_false, Bool.false_eq_true, ite_false]
+        exact RelS_put_doSet h k v _ ttl
+    · simp only [ne_eq, ho, not_false_eq_true, ite_true, ite_false]; exact h
+
+theorem Rel_listeners {st : State} {f : SF} (h : Rel st f) (ls : List Lid) :
+    Rel { st with listeners := ls } f :=
+  ⟨h.val_eq, h.ids_lt, h.uniq, h.cur, h.nocur, h.armed_cur, h.fired_due⟩
+
+theorem RelS_fire {st : State} {sp : Spec} (h : RelS st sp) (dt : Nat) :
+    RelS (fire st dt) { sp with now := sp.now + dt } := by
+  refine ⟨by simp [fire, h.now_eq], ?_⟩
+  have hr := h.rel
+  constructor
+  · exact hr.val_eq
+  · intro t ht
+    simp only [fire, List.mem_map] at ht
+    obtain ⟨t0, ht0, rfl⟩ := ht
+    have := hr.ids_lt t0 ht0
+    have e : (if t0.due ≤ st.now + dt then { t0 with fired := true } else t0).id = t0.id := by
+      split <;> rfl
+    rw [e]; exact this
+  · intro t1 h1 t2 h2 hid
+    simp only [fire, List.mem_map] at h1 h2
+    obtain ⟨a, ha, rfl⟩ := h1
+    obtain ⟨b, hb, rfl⟩ := h2
+    have : a.id = b.id := by
+      have e1 : (if a.due ≤ st.now + dt then { a with fired := true } else a).id = a.id := by split <;> rfl
+      have e2 : (if b.due ≤ st.now + dt then { b with fired := true } else b).id = b.id := by split <;> rfl
+      rw [e1, e2] at hid; exact hid
+    rw [hr.uniq a ha b hb this]
+  · intro k id hk
+    obtain ⟨t, ht, hid, hkey, hf⟩ := hr.cur k id hk
+    refine ⟨if t.due ≤ st.now + dt then { t with fired := true } else t, ?_, ?_, ?_, ?_⟩
+    · simp only [fire, List.mem_map]; exact ⟨t, ht, rfl⟩
+    · split <;> exact hid
+    · split <;> exact hkey
+    · split <;> exact hf
+  · exact hr.nocur
+  · intro t ht hfired
+    simp only [fire, List.mem_map] at ht
+    obtain ⟨t0, ht0, rfl⟩ := ht
+    by_cases hd : t0.due ≤ st.now + dt
+    · simp [hd] at hfired
+    · simp only [hd, ite_false] at hfired ⊢
+      obtain ⟨hc, _⟩ := hr.armed_cur t0 ht0 hfired
+      exact ⟨hc, by simp only [fire]; omega⟩
+  · intro t ht hfired
+    simp only [fire, List.mem_map] at ht
+    obtain ⟨t0, ht0, rfl⟩ := ht
+    by_cases hd : t0.due ≤ st.now + dt
+    · simp only [hd, ite_true, fire]
+    · simp only [hd, ite_false] at hfired ⊢
+      have := hr.fired_due t0 ht0 hfired
+      simp only [fire]; omega
+
+/-- What the callback of timer `id` means for the ideal store: if it is still the timer
+governing its key, the expiry of that key takes place; otherwise nothing. -/
+def specCb (st : State) (sp : Spec) (id : Nat) : Spec :=
+  match st.timers.find? (fun t => t.id == id && t.fired) with
+  | none => sp
+  | some t => if kvGet st.tmap t.key = some id then sp.expire t.key else sp
+
+theorem RelS_runCb {st : State} {sp : Spec} (h : RelS st sp) (id : Nat) :
+    RelS (runCb Cfg.repaired st id).st (specCb st sp id) := by
+  unfold runCb specCb
+  cases hfind : st.timers.find? (fun t => t.id == id && t.fired) with
+  | none => exact h
+  | some t =>
+    have htm : t ∈ st.timers := List.mem_of_find?_eq_some hfind
+    have htp := List.find?_some hfind
+    simp only [Bool.and_eq_true, beq_iff_eq] at htp
+    obtain ⟨hid, hfired⟩ := htp
+    have hr := h.rel
+    -- the state in which the callback runs: its own timer object is gone
+    have hr1 : ∀ f, Rel st f → (kvGet st.tmap t.key ≠ some id ∨ True) →
+        (∀ k id', kvGet st.tmap k = some id' → id' ≠ id →
+          ∃ t' ∈ st.timers.filter (fun t => !(t.id == id && t.fired)), t'.id = id' ∧ t'.key = k ∧
+            f k = some ⟨t'.val, some t'.due⟩) := by
+      intro f hf _ k id' hk hne
+      obtain ⟨t', ht', hid', hkey', hf'⟩ := hf.cur k id' hk
+      refine ⟨t', ?_, hid', hkey', hf'⟩
+      simp only [List.mem_filter, ht', true_and]
+      have : t'.id ≠ id := by rw [hid']; exact hne
+      simp [this]
+    have hs : Cfg.repaired.expiryChecksCurrent = true := rfl
+    by_cases hcur : kvGet st.tmap t.key = some id
+    · -- still the governing timer: the value is removed, the spec's expiry takes place
+      simp only [hs, hcur, Bool.true_and, ne_eq, not_true_eq_false, decide_false,
+        Bool.false_eq_true, ite_false, ite_true]
+      obtain ⟨t0, ht0, hid0, hkey0, hf0⟩ := hr.cur t.key id hcur
+      have ht0t : t0 = t := hr.uniq t0 ht0 t htm (hid0.trans hid.symm)
+      subst ht0t
+      have hdata : kvGet st.data t0.key = some t0.val := by
+        rw [← hr.val_eq, hf0]; rfl
+      have hover : (⟨t0.val, some t0.due⟩ : Entry).overdue sp.now = true := by
+        simp only [Entry.overdue, decide_eq_true_eq]
+        rw [h.now_eq]; exact hr.fired_due t0 htm hfired
+      have hexp : sp.expire t0.key = sp.del t0.key := by
+        unfold Spec.expire; rw [hf0]; simp [hover]
+      rw [hexp]
+      simp only [compareAndRemove, hdata, ite_true]
+      -- Rel for the intermediate state (timer object removed, map entry still there) is not
+      -- needed: doRemove's stopTimer erases the entry; go through the pieces directly.
+      refine ⟨by simp [doRemove, Spec.del, h.now_eq], ?_⟩
+      rw [specF_del]
+      simp only [doRemove]
+      have hstop : stopTimer { st with timers := st.timers.filter (fun t => !(t.id == id && t.fired))
+                                       data := kvErase st.data t0.key } t0.key
+          = { st with timers := (st.timers.filter (fun t => !(t.id == id && t.fired))).filter
+                                  (fun t => !(t.id == id && !t.fired))
+                      data := kvErase st.data t0.key
+                      tmap := kvErase st.tmap t0.key } := by
+        unfold stopTimer; simp [hcur]
+      rw [hstop]
+      constructor
+      · intro k'
+        simp only [upd, kvGet_kvErase]
+        by_cases hkk : k' = t0.key
+        · simp [hkk]
+        · simp only [hkk, ite_false]; exact hr.val_eq k'
+      · intro t' ht'
+        simp only [List.mem_filter] at ht'
+        exact hr.ids_lt t' ht'.1.1
+      · intro t1 h1 t2 h2
+        simp only [List.mem_filter] at h1 h2
+        exact hr.uniq t1 h1.1.1 t2 h2.1.1
+      · intro k' id' hk'
+        simp only [kvGet_kvErase] at hk'
+        by_cases hkk : k' = t0.key
+        · simp [hkk] at hk'
+        · simp only [hkk, ite_false] at hk'
+          obtain ⟨t', ht', hid', hkey', hf'⟩ := hr.cur k' id' hk'
+          have hne : t'.id ≠ id := by
+            intro e
+            have : t' = t0 := hr.uniq t' ht' t0 htm (e.trans hid.symm)
+            subst this; exact hkk hkey'.symm
+          refine ⟨t', ?_, hid', hkey', by simp only [upd, hkk, ite_false]; exact hf'⟩
+          simp [List.mem_filter, ht', hne]
+      · intro k' hk' e he
+        simp only [kvGet_kvErase] at hk'
+        by_cases hkk : k' = t0.key
+        · simp [upd, hkk] at he
+        · simp only [hkk, ite_false] at hk'
+          simp only [upd, hkk, ite_false] at he
+          exact hr.nocur k' hk' e he
+      · intro t' ht' hf'
+        simp only [List.mem_filter] at ht'
+        obtain ⟨hc, hn⟩ := hr.armed_cur t' ht'.1.1 hf'
+        refine ⟨?_, hn⟩
+        simp only [kvGet_kvErase]
+        by_cases hkk : t'.key = t0.key
+        · exfalso
+          rw [hkk, hcur] at hc
+          have hi : t'.id = id := by injection hc with hc; exact hc.symm
+          have : t' = t0 := hr.uniq t' ht'.1.1 t0 htm (hi.trans hid.symm)
+          subst this
+          rw [hfired] at hf'; cases hf'
+        · simp only [hkk, ite_false]; exact hc
+      · intro t' ht' hf'
+        simp only [List.mem_filter] at ht'
+        exact hr.fired_due t' ht'.1.1 hf'
+    · -- superseded: nothing happens
+      simp only [hs, hcur, Bool.true_and, ne_eq, not_false_eq_true, decide_true, ite_true, ite_false]
+      refine ⟨h.now_eq, ?_⟩
+      constructor
+      · exact hr.val_eq
+      · intro t' ht'
+        simp only [List.mem_filter] at ht'
+        exact hr.ids_lt t' ht'.1
+      · intro t1 h1 t2 h2
+        simp only [List.mem_filter] at h1 h2
+        exact hr.uniq t1 h1.1 t2 h2.1
+      · intro k id' hk
+        have hne : id' ≠ id := by
+          intro e; subst e
+          obtain ⟨t', ht', hid', hkey', _⟩ := hr.cur k id' hk
+          have : t' = t := hr.uniq t' ht' t htm (hid'.trans hid.symm)
+          subst this
+          rw [hkey'] at hcur; exact hcur hk
+        exact hr1 _ hr (Or.inr trivial) k id' hk hne
+      · exact hr.nocur
+      · intro t' ht' hf'
+        simp only [List.mem_filter] at ht'
+        exact hr.armed_cur t' ht'.1 hf'
+      · intro t' ht' hf'
+        simp only [List.mem_filter] at ht'
+        exact hr.fired_due t' ht'.1 hf'
+
+/-! ### callbacks in sequence, quiescent passage of time -/
+
+def NoFired (st : State) : Prop := ∀ t ∈ st.timers, t.fired = false
+
+/-- Timers of `st'` are timers of `st` or freshly armed ones. -/
+def TimersOK (st st' : State) : Prop := ∀ t ∈ st'.timers, t ∈ st.timers ∨ t.fired = false
+
+theorem TimersOK.refl (st : State) : TimersOK st st := fun _ h => Or.inl h
+
+theorem TimersOK.of_eq {st st' : State} (h : st'.timers = st.timers) : TimersOK st st' :=
+  fun t ht => Or.inl (h ▸ ht)
+
+theorem TimersOK.trans {a b c : State} (h1 : TimersOK a b) (h2 : TimersOK b c) : TimersOK a c := by
+  intro t ht
+  rcases h2 t ht with h | h
+  · exact h1 t h
+  · exact Or.inr h
+
+theorem NoFired.of_ok {st st' : State} (h : NoFired st) (ok : TimersOK st st') : NoFired st' := by
+  intro t ht
+  rcases ok t ht with h' | h'
+  · exact h t h'
+  · exact h'
+
+theorem TimersOK_stop (st : State) (k : Key) : TimersOK st (stopTimer st k) :=
+  fun t ht => Or.inl (mem_stopTimer_timers st k t ht)
+
+theorem TimersOK_arm (st : State) (k : Key) (v : Val) (ttl : Int) : TimersOK st (arm st k v ttl) := by
+  intro t ht
+  simp only [arm, List.mem_append, List.mem_singleton] at ht
+  rcases ht with h | h
+  · exact Or.inl h
+  · subst h; exact Or.inr rfl
+
+theorem TimersOK_removeAfterTTL (c : Cfg) (st : State) (k : Key) (v : Val) (ttl : Int) :
+    TimersOK st (removeAfterTTL c st k v ttl) := by
+  unfold removeAfterTTL
+  split
+  · split
+    · exact TimersOK_stop st k
+    · exact TimersOK.refl st
+  · exact (TimersOK_stop st k).trans (TimersOK_arm _ k v ttl)
+
+theorem TimersOK_updateTTL (c : Cfg) (st : State) (k : Key) (v : Val) (ttl : Int) :
+    TimersOK st (updateTTL c st k v ttl) := by
+  unfold updateTTL
+  split
+  · split
+    · exact TimersOK_stop st k
+    · exact TimersOK.of_eq rfl
+  · exact TimersOK_removeAfterTTL c st k v ttl
+
+theorem TimersOK_doSet (c : Cfg) (st : State) (k : Key) (v : Val) (prev : Option Val) (ttl : Int) :
+    TimersOK st (doSet c st k v prev ttl).1 := by
+  simp only [doSet]
+  exact (TimersOK.of_eq (st := st) (st' := { st with data := kvSet st.data k v }) rfl).trans
+    (TimersOK_removeAfterTTL c _ k v ttl)
+
+theorem TimersOK_doRemove (st : State) (k : Key) (prev : Val) : TimersOK st (doRemove st k prev).1 := by
+  simp only [doRemove]
+  exact (TimersOK.of_eq (st := st) (st' := { st with data := kvErase st.data k }) rfl).trans
+    (TimersOK_stop _ k)
+
+theorem TimersOK_remove (st : State) (k : Key) : TimersOK st (remove st k).st := by
+  unfold remove; split
+  · exact TimersOK.refl st
+  · exact TimersOK_doRemove st k ""
+
+theorem TimersOK_compareAndRemove (st : State) (k : Key) (old : Option Val) :
+    TimersOK st (compareAndRemove st k old).st := by
+  unfold compareAndRemove; split
+  · exact TimersOK.refl st
+  · split
+    · exact TimersOK_doRemove st k ""
+    · exact TimersOK.refl st
+
+theorem TimersOK_setTTL (c : Cfg) (st : State) (k : Key) (v : Option Val) (ttl : Int) :
+    TimersOK st (setTTL c st k v ttl).st := by
+  unfold setTTL; split
+  · exact TimersOK_remove st k
+  · simp only; split
+    · apply TimersOK_updateTTL
+    · exact TimersOK_doSet c st k _ none ttl
+
+theorem TimersOK_casTTL (c : Cfg) (st : State) (k : Key) (old v : Option Val) (ttl : Int) :
+    TimersOK st (casTTL c st k old v ttl).st := by
+  unfold casTTL; split
+  · exact TimersOK_compareAndRemove st k old
+  · simp only; split
+    · exact TimersOK.refl st
+    · split
+      · apply TimersOK_updateTTL
+      · exact TimersOK_doSet c st k _ none ttl
+
+/-- A callback removes its own timer object and never adds or fires one. -/
+theorem mem_runCb_timers (c : Cfg) (st : State) (id : Nat) (t : Timer)
+    (ht : t ∈ (runCb c st id).st.timers) : t ∈ st.timers ∧ ¬ (t.id = id ∧ t.fired = true) := by
+  unfold runCb at ht
+  cases hfind : st.timers.find? (fun t => t.id == id && t.fired) with
+  | none =>
+    simp only [hfind] at ht
+    refine ⟨ht, ?_⟩
+    have := List.find?_eq_none.mp hfind t ht
+    simpa using this
+  | some t0 =>
+    simp only [hfind] at ht
+    have key : t ∈ st.timers.filter (fun t => !(t.id == id && t.fired)) := by
+      split at ht
+      · exact ht
+      · have hsub := TimersOK_compareAndRemove
+          { st with timers := st.timers.filter (fun t => !(t.id == id && t.fired)) } t0.key (some t0.val)
+        -- compareAndRemove only filters
+        have : ∀ t, t ∈ (compareAndRemove
+            { st with timers := st.timers.filter (fun t => !(t.id == id && t.fired)) } t0.key (some t0.val)).st.timers →
+            t ∈ st.timers.filter (fun t => !(t.id == id && t.fired)) := by
+          intro t ht
+          unfold compareAndRemove at ht
+          split at ht
+          · exact ht
+          · split at ht
+            · exact mem_stopTimer_timers _ _ t ht
+            · exact ht
+        exact this t ht
+    simp only [List.mem_filter] at key
+    refine ⟨key.1, ?_⟩
+    intro ⟨h1, h2⟩
+    have := key.2
+    simp [h1, h2] at this
+
+theorem mem_runCbs_timers (c : Cfg) (ids : List Nat) (st : State) (t : Timer)
+    (ht : t ∈ (runCbs c st ids).1.timers) : t ∈ st.timers ∧ ¬ (t.id ∈ ids ∧ t.fired = true) := by
+  induction ids generalizing st with
+  | nil => exact ⟨ht, by simp⟩
+  | cons id ids ih =>
+    simp only [runCbs] at ht
+    obtain ⟨h1, h2⟩ := ih _ ht
+    obtain ⟨h3, h4⟩ := mem_runCb_timers c st id t h1
+    refine ⟨h3, ?_⟩
+    intro ⟨hm, hf⟩
+    rcases List.mem_cons.mp hm with h | h
+    · exact h4 ⟨h, hf⟩
+    · exact h2 ⟨h, hf⟩
+
+theorem mem_insertTimer (t u : Timer) (l : List Timer) : u ∈ insertTimer t l ↔ u = t ∨ u ∈ l := by
+  induction l with
+  | nil => simp [insertTimer]
+  | cons a r ih =>
+    simp only [insertTimer]
+    split
+    · simp
+    · simp only [List.mem_cons, ih]
+      constructor
+      · rintro (h | h | h)
+        · exact Or.inr (Or.inl h)
+        · exact Or.inl h
+        · exact Or.inr (Or.inr h)
+      · rintro (h | h | h)
+        · exact Or.inr (Or.inl h)
+        · exact Or.inl h
+        · exact Or.inr (Or.inr h)
+
+theorem mem_sortTimers (u : Timer) (l : List Timer) : u ∈ sortTimers l ↔ u ∈ l := by
+  induction l with
+  | nil => simp [sortTimers]
+  | cons a r ih =>
+    have : sortTimers (a :: r) = insertTimer a (sortTimers r) := rfl
+    rw [this, mem_insertTimer, ih]
+    simp
+
+theorem mem_pendingIds {st : State} {t : Timer} (ht : t ∈ st.timers) (hf : t.fired = true) :
+    t.id ∈ pendingIds st := by
+  simp only [pendingIds, List.mem_map]
+  exact ⟨t, (mem_sortTimers t _).mpr (by simp [List.mem_filter, ht, hf]), rfl⟩
+
+theorem pendingIds_noFired {st : State} (h : NoFired st) : pendingIds st = [] := by
+  have : st.timers.filter (·.fired) = [] := by
+    rw [List.filter_eq_nil_iff]
+    intro t ht; simp [h t ht]
+  simp [pendingIds, this, sortTimers]
+
+/-- After all waiting callbacks ran, none is waiting. -/
+theorem noFired_runCbs_pending (c : Cfg) (st : State) : NoFired (runCbs c st (pendingIds st)).1 := by
+  intro t ht
+  obtain ⟨h1, h2⟩ := mem_runCbs_timers c _ st t ht
+  cases hf : t.fired with
+  | false => rfl
+  | true => exact absurd ⟨mem_pendingIds h1 hf, hf⟩ h2
+
+theorem noFired_advance (c : Cfg) (st : State) (dt : Nat) : NoFired (advance c st dt).1 := by
+  simp only [advance]
+  exact noFired_runCbs_pending c _
+
+/-- The spec events of a sequence of callbacks. -/
+def specCbs : State → Spec → List Nat → Spec
+  | _, sp, [] => sp
+  | st, sp, id :: ids => specCbs (runCb Cfg.repaired st id).st (specCb st sp id) ids
+
+theorem RelS_runCbs (ids : List Nat) {st : State} {sp : Spec} (h : RelS st sp) :
+    RelS (runCbs Cfg.repaired st ids).1 (specCbs st sp ids) := by
+  induction ids generalizing st sp with
+  | nil => exact h
+  | cons id ids ih =>
+    simp only [runCbs, specCbs]
+    exact ih (RelS_runCb h id)
+
+/-- The spec events of a quiescent passage of time as the model schedules them. -/
+def specAdvance (st : State) (sp : Spec) (dt : Nat) : Spec :=
+  let s1 := (runCbs Cfg.repaired st (pendingIds st)).1
+  let sp1 := specCbs st sp (pendingIds st)
+  specCbs (fire s1 dt) { sp1 with now := sp1.now + dt } (pendingIds (fire s1 dt))
+
+theorem RelS_advance {st : State} {sp : Spec} (h : RelS st sp) (dt : Nat) :
+    RelS (advance Cfg.repaired st dt).1 (specAdvance st sp dt) := by
+  simp only [advance, specAdvance]
+  exact RelS_runCbs _ (RelS_fire (RelS_runCbs _ h) dt)
+
+/-- `cur` is `base` minus some keys that were overdue in `base`. -/
+def Shrunk (base cur : Spec) : Prop :=
+  cur.now = base.now ∧
+  ∀ k, kvGet cur.ents k = kvGet base.ents k ∨ (kvGet cur.ents k = none ∧ base.overdue base.now k = true)
+
+theorem Shrunk.refl (sp : Spec) : Shrunk sp sp := ⟨rfl, fun _ => Or.inl rfl⟩
+
+theorem Shrunk_expire {base cur : Spec} (h : Shrunk base cur) (k0 : Key) : Shrunk base (cur.expire k0) := by
+  unfold Spec.expire
+  cases he : kvGet cur.ents k0 with
+  | none => exact h
+  | some e =>
+    by_cases ho : e.overdue cur.now = true
+    · simp only [ho, ite_true]
+      refine ⟨h.1, fun k => ?_⟩
+      simp only [Spec.del, kvGet_kvErase]
+      by_cases hk : k = k0
+      · subst hk
+        simp only [ite_true]
+        rcases h.2 k with h' | h'
+        · refine Or.inr ⟨trivial, ?_⟩
+          rw [he] at h'
+          simp only [Spec.overdue, ← h', ← h.1, ho]
+        · rw [he] at h'; exact absurd h'.1 (by simp)
+      · simp only [hk, ite_false]; exact h.2 k
+    · simp only [ho]; exact h
+
+theorem Shrunk_specCb {base cur : Spec} (h : Shrunk base cur) (st : State) (id : Nat) :
+    Shrunk base (specCb st cur id) := by
+  unfold specCb
+  split
+  · exact h
+  · split
+    · exact Shrunk_expire h _
+    · exact h
+
+theorem Shrunk_specCbs (ids : List Nat) {base cur : Spec} (h : Shrunk base cur) (st : State) :
+    Shrunk base (specCbs st cur ids) := by
+  induction ids generalizing st cur with
+  | nil => exact h
+  | cons id ids ih => exact ih (Shrunk_specCb h st id) _
+
+/-- In a state without waiting callbacks nothing in the ideal store is past its deadline. -/
+theorem no_overdue_of_noFired {st : State} {sp : Spec} (h : RelS st sp) (hn : NoFired st) (k : Key) :
+    sp.overdue sp.now k = false := by
+  unfold Spec.overdue
+  cases he : kvGet sp.ents k with
+  | none => rfl
+  | some e =>
+    simp only [Entry.overdue]
+    cases hd : e.deadline with
+    | none => rfl
+    | some d =>
+      cases hk : kvGet st.tmap k with
+      | none => have := h.rel.nocur k hk e he; rw [hd] at this; cases this
+      | some id =>
+        obtain ⟨t, ht, _, _, hf⟩ := h.rel.cur k id hk
+        rw [he] at hf
+        have hde : d = t.due := by
+          injection hf with hf; rw [hf] at hd; injection hd with hd; exact hd.symm
+        have := (h.rel.armed_cur t ht (hn t ht)).2
+        simp only [decide_eq_false_iff_not]
+        rw [hde, h.now_eq]; omega
+
+theorem kvGet_settle (sp : Spec) (dt : Nat) (k : Key) :
+    kvGet (sp.settle dt).ents k = if sp.overdue (sp.now + dt) k then none else kvGet sp.ents k := by
+  simp only [Spec.settle]
+  rw [kvGet_filter_key (fun x => !sp.overdue (sp.now + dt) x)]
+  cases sp.overdue (sp.now + dt) k <;> simp
+
+/-- Starting without waiting callbacks, the events the model schedules for a quiescent
+passage of time amount to the ideal `settle`: exactly the keys past their deadline go. -/
+theorem specAdvance_eq_settle {st : State} {sp : Spec} (h : RelS st sp) (hn : NoFired st) (dt : Nat) :
+    (specAdvance st sp dt).now = (sp.settle dt).now ∧
+    kvGet (specAdvance st sp dt).ents = kvGet (sp.settle dt).ents := by
+  have hadv := RelS_advance h dt
+  have hnf := noFired_advance Cfg.repaired st dt
+  have hno := no_overdue_of_noFired hadv hnf
+  -- the first round of callbacks is empty
+  have hp : pendingIds st = [] := pendingIds_noFired hn
+  have hsa : specAdvance st sp dt =
+      specCbs (fire st dt) { sp with now := sp.now + dt } (pendingIds (fire st dt)) := by
+    simp [specAdvance, hp, runCbs, specCbs]
+  have hsh : Shrunk { sp with now := sp.now + dt } (specAdvance st sp dt) := by
+    rw [hsa]; exact Shrunk_specCbs _ (Shrunk.refl _) _
+  refine ⟨by rw [hsh.1]; rfl, ?_⟩
+  funext k
+  rw [kvGet_settle]
+  have hbase : Spec.overdue { sp with now := sp.now + dt } (sp.now + dt) k = sp.overdue (sp.now + dt) k := rfl
+  rcases hsh.2 k with h' | h'
+  · -- untouched: then it is not overdue
+    have h1 := hno k
+    rw [hsh.1] at h1
+    have : sp.overdue (sp.now + dt) k = false := by
+      simp only [Spec.overdue] at h1 ⊢
+      rw [h'] at h1; exact h1
+    simp [this, h']
+  · have : sp.overdue (sp.now + dt) k = true := h'.2
+    simp [this, h'.1]
+
+theorem RelS_congr {st : State} {sp sp' : Spec} (h : RelS st sp) (hn : sp'.now = sp.now)
+    (he : kvGet sp'.ents = kvGet sp.ents) : RelS st sp' :=
+  ⟨hn.trans h.now_eq, he ▸ h.rel⟩
+
+/-! ### every operation -/
+
+/-- The spec-level meaning of each model step, asynchronous events included. -/
+def specStepA (st : State) (sp : Spec) : Op → Spec
+  | .runCb id => specCb st sp id
+  | .advance dt => specAdvance st sp dt
+  | op => sp.step op
+
+theorem RelS_stepA {st : State} {sp : Spec} (h : RelS st sp) (op : Op) :
+    RelS (stepC Cfg.repaired st op).st (specStepA st sp op) := by
+  cases op with
+  | set k v ttl => exact RelS_setTTL h k v ttl
+  | cas k old v ttl => exact RelS_casTTL h k old v ttl
+  | remove k => exact RelS_remove h k
+  | casRemove k old => exact RelS_compareAndRemove h k old
+  | addListener l => exact ⟨h.now_eq, Rel_listeners h.rel _⟩
+  | removeListener l => exact ⟨h.now_eq, Rel_listeners h.rel _⟩
+  | get => exact h
+  | advance dt => exact RelS_advance h dt
+  | fire dt => exact RelS_fire h dt
+  | runCb id => exact RelS_runCb h id
+
+/-- On quiescent operations the model follows the ideal store. -/
+theorem RelS_step_quiescent {st : State} {sp : Spec} (h : RelS st sp) (hn : NoFired st) (op : Op)
+    (hq : op.quiescent = true) :
+    RelS (stepC Cfg.repaired st op).st (sp.step op) ∧ NoFired (stepC Cfg.repaired st op).st := by
+  cases op with
+  | set k v ttl => exact ⟨RelS_setTTL h k v ttl, hn.of_ok (TimersOK_setTTL _ st k v ttl)⟩
+  | cas k old v ttl => exact ⟨RelS_casTTL h k old v ttl, hn.of_ok (TimersOK_casTTL _ st k old v ttl)⟩
+  | remove k => exact ⟨RelS_remove h k, hn.of_ok (TimersOK_remove st k)⟩
+  | casRemove k old => exact ⟨RelS_compareAndRemove h k old, hn.of_ok (TimersOK_compareAndRemove st k old)⟩
+  | addListener l => exact ⟨⟨h.now_eq, Rel_listeners h.rel _⟩, hn⟩
+  | removeListener l => exact ⟨⟨h.now_eq, Rel_listeners h.rel _⟩, hn⟩
+  | get => exact ⟨h, hn⟩
+  | advance dt =>
+    obtain ⟨e1, e2⟩ := specAdvance_eq_settle h hn dt
+    exact ⟨RelS_congr (RelS_advance h dt) e1.symm e2.symm, noFired_advance _ st dt⟩
+  | fire dt => cases hq
+  | runCb id => cases hq
+
+theorem RelS_init : RelS init {} := ⟨rfl, Rel_init⟩
+
+theorem noFired_init : NoFired init := by intro t ht; cases ht
+
 end SigModel.Transient
